@@ -46,7 +46,10 @@ pub fn run_arm(spec: &ConfigSpec, arm: &Arm) -> ArmResult {
 }
 
 fn nosparse_binary() -> Option<std::path::PathBuf> {
-    let p = crate::harness::verif_dir().join("sim/target-nosparse/release/hcsim");
+    // <sim>/target/release/hcsim -> <sim>/target-nosparse/release/hcsim
+    let exe = std::env::current_exe().ok()?;
+    let sim = exe.parent()?.parent()?.parent()?;
+    let p = sim.join("target-nosparse/release/hcsim");
     if p.exists() {
         Some(p)
     } else {
